@@ -33,4 +33,10 @@ r 09280b5 C15
 r 090679a C11
 r 7d87d06 C20
 r 7b33c0c C14
+r 5c68a4a C14 C07
+r 6169035 C15
+r 2566766 C01
+r 54f1cce C03
+r c069836 C06
+r e1d5cd1 C16
 echo REVDONE
